@@ -17,6 +17,9 @@ inductive Val where
   | obj (key : List Bool)      -- an opaque object (a `Note` member …): only `==` / `!=` look at it, `key` names its equality class
   | enum (name : String)       -- an enum member named in the source (`HOPOState.TAP`)
   | ints (l : List Int)        -- a sequence seen through one integer attribute of its elements (`self[i].tick`)
+  | flts (l : List Rat)        -- … through one float attribute (`self.events[i].bpm`)
+  | tds (l : List Int)         -- … through one timedelta attribute, in microseconds (`self.events[i].timestamp`)
+  | pair (a b : Val)           -- a 2-tuple (`return timestamp, index`)
   deriving Repr, DecidableEq
 
 inductive BinOp where | add | sub | mul | truediv
@@ -43,6 +46,10 @@ inductive Expr where
   | const (name : String)         -- a dotted name that resolves to an enum member
   | len (a : Expr)                -- `len(seq)`
   | idx (a : Expr) (i : Expr)     -- `seq[i].attr` on a sequence given by that attribute (Python indexing: negative from the end)
+  | tdSeconds (a : Expr)          -- `timedelta(seconds=x)` for a non-negative float (or an int) `x`
+  | isFloat (a : Expr)            -- `isinstance(a, float)`
+  | isTd (a : Expr)               -- `isinstance(a, timedelta)`
+  | pair (a b : Expr)             -- `a, b`
   deriving Repr, DecidableEq
 
 inductive Stmt where
@@ -52,6 +59,9 @@ inductive Stmt where
   | ifElseRet (c : Expr) (a b : Expr)     -- `if c: return a` / `else: return b`
   | forRangeIfRet (v : String) (lo hi : Expr) (c : Expr) (r : Expr)   -- `for v in range(lo, hi): if c: return r`
   | ret (e : Expr)
+  | ifBlockRet (c : Expr) (lets : List (String × Expr)) (r : Expr)   -- `if c:` a few assignments, then `return r`
+  | raise (exc : PyErr)                                              -- an unconditional `raise Exc(...)`
+  | assignCall (x : String) (f : String) (args : List Expr)         -- `x = f(args…)`, `f` a function of /repo translated in its own right
   deriving Repr, DecidableEq
 
 abbrev Env := List (String × Val)
@@ -192,7 +202,36 @@ def evalExpr (env : Env) : Expr → M Val
       else match l[j.toNat]? with
         | some x => .ok (.int x)
         | none => .error (.internal "IndexError")
+    | .flts l, .int k =>
+      let j : Int := if k < 0 then k + l.length else k
+      if j < 0 then .error (.internal "IndexError")
+      else match l[j.toNat]? with
+        | some x => .ok (.flt x)
+        | none => .error (.internal "IndexError")
+    | .tds l, .int k =>
+      let j : Int := if k < 0 then k + l.length else k
+      if j < 0 then .error (.internal "IndexError")
+      else match l[j.toNat]? with
+        | some x => .ok (.td x)
+        | none => .error (.internal "IndexError")
     | _, _ => unsupported "indexing"
+  | .tdSeconds a => evalExpr env a >>= fun v =>
+    match v with
+    | .flt x => if 0 ≤ x then .ok (.td (usOfSeconds x)) else unsupported "timedelta(seconds=negative)"
+    | .int n => .ok (.td (n * 1000000))
+    | _ => unsupported "timedelta(seconds=…)"
+  | .isFloat a => evalExpr env a >>= fun v => .ok (.bool (match v with | .flt _ => true | _ => false))
+  | .isTd a => evalExpr env a >>= fun v => .ok (.bool (match v with | .td _ => true | _ => false))
+  | .pair a b => evalExpr env a >>= fun va => evalExpr env b >>= fun vb => .ok (.pair va vb)
+
+/-- the assignments of an `if` arm, in order -/
+def evalLets : Env → List (String × Expr) → M Env
+  | env, [] => .ok env
+  | env, (x, e) :: rest => evalExpr env e >>= fun v => evalLets ((x, v) :: env) rest
+
+def evalArgs (env : Env) : List Expr → M (List Val)
+  | [] => .ok []
+  | e :: es => evalExpr env e >>= fun v => evalArgs env es >>= fun vs => .ok (v :: vs)
 
 /-- `for v in range(k, k + n): if c: return r` — the value returned from inside, if any, and the environment afterwards
     (the loop variable keeps its last value) -/
@@ -233,6 +272,13 @@ def evalBody (env : Env) : List Stmt → M Val
         | none => evalBody res.2 rest
     | _, _ => unsupported "range bounds"
   | .ret e :: _ => evalExpr env e
+  | .ifBlockRet c lets r :: rest => evalExpr env c >>= fun v =>
+    match v with
+    | .bool true => evalLets env lets >>= fun env' => evalExpr env' r
+    | .bool false => evalBody env rest
+    | _ => unsupported "condition"
+  | .raise exc :: _ => .error exc
+  | .assignCall _ _ _ :: _ => unsupported "call (use evalBodyC)"
 
 /-- run guards and assignments, give back the environment (for leaves that are a few statements of a longer method) -/
 def execBody (env : Env) : List Stmt → M Env
@@ -247,8 +293,26 @@ def execBody (env : Env) : List Stmt → M Env
   | .ifElseRet _ _ _ :: _ => .ok env
   | .forRangeIfRet _ _ _ _ _ :: _ => .ok env
   | .ret _ :: _ => .ok env
+  | .ifBlockRet _ _ _ :: _ => .ok env
+  | .raise exc :: _ => .error exc
+  | .assignCall _ _ _ :: _ => .error (.internal "unsupported: call (use evalBodyC)")
 
 /-- the value a name holds after the statements ran -/
 def valueOf (env : Env) (stmts : List Stmt) (x : String) : M Val := execBody env stmts >>= fun e => lookup e x
+
+/-- a function body that calls other translated functions: `call f args` is the callee's own body evaluated on `args`
+    (the table is generated next to the ASTs, callees before callers, so there is no recursion) -/
+def evalBodyC (call : String → List Val → M Val) (env : Env) : List Stmt → M Val
+  | [] => .ok .none
+  | .assignCall x f args :: rest => evalArgs env args >>= fun vs => call f vs >>= fun v => evalBodyC call ((x, v) :: env) rest
+  | .assign x e :: rest => evalExpr env e >>= fun v => evalBodyC call ((x, v) :: env) rest
+  | .ifRaise c exc :: rest => evalExpr env c >>= fun v =>
+    match v with
+    | .bool true => .error exc
+    | .bool false => evalBodyC call env rest
+    | _ => unsupported "condition"
+  | .ret e :: _ => evalExpr env e
+  | .raise exc :: _ => .error exc
+  | _ :: _ => unsupported "statement form next to calls"
 
 end Chartparse.Py
